@@ -67,6 +67,8 @@ type specCfg struct {
 	MaxDepth  int
 	MaxVisits int
 	MaxLoop   int // how often one block may be re-entered on a path (default 2)
+	// StoreEffects: record stores through fields of non-local objects as effects "store <path> := <value>".
+	StoreEffects bool
 	// Consistent: a symbolic condition met twice on one path is decided the same way both times. Sound only when every
 	// symbol stands for one value (hooks name values by what they denote; no opaque impure calls among the conditions).
 	Consistent bool
@@ -159,6 +161,10 @@ func (sr *specRun) fnFree(fn *ssa.Function, args []sval, free []sval, depth int)
 				return symv(c.Pkg.Pkg.Name() + "." + c.Name())
 			case *ssa.Function:
 				return sval{sym: c.Name(), fn: c}
+			case *ssa.FieldAddr:
+				if _, has := env[v]; !has {
+					return sval{sym: "&" + path(c), ptr: true} // the address of a field is never nil
+				}
 			}
 			if x, ok := env[v]; ok {
 				if _, isAlloc := v.(*ssa.Alloc); isAlloc && x.tup == nil {
@@ -200,7 +206,7 @@ func (sr *specRun) fnFree(fn *ssa.Function, args []sval, free []sval, depth int)
 					env[in] = constv(constant.MakeBool(!constant.BoolVal(x.c)))
 				case in.Op == token.SUB && x.isConst():
 					env[in] = constv(constant.UnaryOp(token.SUB, x.c, 0))
-				case in.Op == token.MUL && x.ptr:
+				case in.Op == token.MUL && x.ptr && !isAddrInstr(in.X) && !strings.HasPrefix(x.sym, "&"):
 					// load through a pointer to a tracked local
 					x.ptr = false
 					env[in] = x
@@ -240,6 +246,15 @@ func (sr *specRun) fnFree(fn *ssa.Function, args []sval, free []sval, depth int)
 				}
 			case *ssa.Store:
 				specStore(env, in.Addr, get(in.Val))
+				if sr.cfg.StoreEffects {
+					// a store through a field of something that is not a tracked local: an effect on the heap
+					if fa, isFA := in.Addr.(*ssa.FieldAddr); isFA {
+						if _, tracked := specBase(env, fa.X); !tracked {
+							ap, _ := envPath(env, in.Addr)
+							conds = append(append([]string{}, conds...), "effect:store "+ap+" := "+get(in.Val).String())
+						}
+					}
+				}
 			case *ssa.Alloc, *ssa.FieldAddr, *ssa.IndexAddr:
 				// addresses: resolved at the load
 			case *ssa.Field:
@@ -690,8 +705,15 @@ func specStore(env map[ssa.Value]sval, addr ssa.Value, val sval) {
 		tv := env[base]
 		if tv.tup == nil {
 			tv = sval{tup: make([]sval, n)}
+			st := structOfPtr(a.X.Type())
 			for i := range tv.tup {
 				tv.tup[i] = symv("zero")
+				if st != nil && i < st.NumFields() {
+					// a field the literal leaves out holds its type's zero value
+					if z, ok := zeroConst(st.Field(i).Type()); ok {
+						tv.tup[i] = z
+					}
+				}
 			}
 		} else {
 			tv = sval{tup: append([]sval{}, tv.tup...)}
@@ -854,4 +876,12 @@ func untouchedZero(env map[ssa.Value]sval, ld *ssa.UnOp) (sval, bool) {
 		}
 	}
 	return zeroConst(ld.Type())
+}
+
+func isAddrInstr(v ssa.Value) bool {
+	switch v.(type) {
+	case *ssa.FieldAddr, *ssa.IndexAddr, *ssa.Alloc, *ssa.Global:
+		return true
+	}
+	return false
 }
